@@ -43,6 +43,10 @@ def p_fixpoint(text):
 def run(ctx):
     rng = ctx.rng
     texts = [G5.render(rng, G5.document(rng)) for _ in range(ctx.n(3000, 60000))]
+    # extra fields whose continuation lines are indented with a tab (legal deb822): the recorded finding F24
+    G5.TAB_EXTRAS = 0.5
+    texts += [G5.render(rng, G5.document(rng)) for _ in range(ctx.n(300, 3000))]
+    G5.TAB_EXTRAS = 0.0
     texts += ['Files: *\nCopyright: x\nLicense: y\nFoo: a\n b\n', 'Format: f\nX-A: a\n b\n .\n  c\n\nFiles: *\nCopyright: 2019 x\nLicense: MIT\n t\n']
     fails = ctx.prop('prop:render-fixpoint', texts, p_fixpoint)
     fails += ctx.prop('prop:observing-changes-nothing', texts[:ctx.n(700, 8000)], _copy.p_observe)
